@@ -30,6 +30,8 @@ Definition is_read (o : set_op) (r : res) : bool :=
   | SInsert _, RBool true => false
   | SErase _, RBool true => false
   | SUpdate _ _, RPair _ true => false
+  | SExtractMin, _ => false
+  | SExtractMax, _ => false
   | _, _ => true
   end.
 
